@@ -191,30 +191,145 @@ def _kernels(ctx):
     ctx.analysed_files.add(GEO)
     # The C kernels are decided by value numbering (kernels_value below): the statement-text comparisons that stood here
     # (r12 definition, wrap statements, box loads and reduction, candidate construction, sibling equality) fired on renamed locals.
-    # ---- numpy reference trio
-    fns = {q: ctx.py.func(DIST, q) for q in ("_distance_mic", "_distance_mic_t", "_displacement_mic")}
-    sig = {}
-    for q, fn in fns.items():
-        s = src(fn)
-        wraps = re.findall(r"r12 -= (bv\d) \* round\(r12\[(\d)\] / (bv\d)\[(\d)\]\)", s)
-        loops = re.findall(r"for (\w+) in range\((-?\d+), (-?\d+)\)", s)
-        cand = re.findall(r"(\w+) = r12 \+ v12 \+ bv3 \* kk", s)
-        red = "_reduce_box_vectors(box_vectors[" in s and "].T)" in s
-        sig[q] = (tuple(wraps), tuple(loops), len(cand), red)
-        ctx.decide(wraps == [("bv3", "2", "bv3", "2"), ("bv2", "1", "bv2", "1"), ("bv1", "0", "bv1", "0")], "C05-R4", fn, DIST, q, "wrap along c, b, a by the reduced diagonal", "", "reference wrap is %s" % wraps)
-        ctx.decide([(a, b) for _, a, b in loops] == [("-1", "2")] * 3, "C05-R4", fn, DIST, q, "image loops range(-1, 2) x3", "", "reference image loops are %s" % loops)
-        ctx.decide(red, "C05-R4", fn, DIST, q, "box reduced before use", "", "reference path does not reduce the box")
-    ctx.decide(len(set(sig.values())) == 1, "C05-R3", fns["_distance_mic_t"], DIST, "_distance_mic/_distance_mic_t/_displacement_mic", "one wrap / search scheme in all three reference functions", "", "reference functions differ: %s" % sig)
-    d = {q: re.search(r"r12 = (.*)", src(fn)).group(1) for q, fn in fns.items()}
-    ctx.decide(d["_distance_mic"] == "xyz[i, b, :] - xyz[i, a, :]" and d["_displacement_mic"] == "xyz[i, b, :] - xyz[i, a, :]", "C05-R2", fns["_displacement_mic"], DIST, "_displacement_mic",
-               "reference displacement = xyz[b] - xyz[a] (same sign as the C kernel)", "", "reference displacement is %s" % d)
-    rb = ctx.py.func(DIST, "_reduce_box_vectors")
-    s = src(rb)
-    ok = "bv3 -= bv2 * round(bv3[1] / bv2[1])" in s and "bv3 -= bv1 * round(bv3[0] / bv1[0])" in s and "bv2 -= bv1 * round(bv2[0] / bv1[0])" in s and \
-        s.index("bv3 -= bv2") < s.index("bv3 -= bv1") < s.index("bv2 -= bv1")
-    ctx.decide(ok, "C05-R4", rb, DIST, "_reduce_box_vectors", "reduction c-=b, c-=a, b-=a", "", "reference box reduction changed")
-    # non-periodic reference
-    ctx.decide("np.diff(xyz[:, pairs], axis=2)[:, :, 0]" in src(ctx.py.func(DIST, "_displacement")), "C05-R2", ctx.py.func(DIST, "_displacement"), DIST, "_displacement", "plain displacement = xyz[b] - xyz[a]", "", "plain displacement changed")
+    # ---- numpy reference trio (opt=False): evaluated, see reference_trio_by_value
+    reference_trio_by_value(ctx)
+
+
+def reference_trio_by_value(ctx):
+    """_distance_mic, _distance_mic_t, _displacement_mic and _displacement (the numpy paths behind opt=False) evaluated (sa/tensym.py) on two
+    symbolic frames and one pair, with `round` and the norm as opaque functions, and compared with the scheme they document: the box is reduced
+    (c -= b round(c_y / b_y); c -= a round(c_x / a_x); b -= a round(b_x / a_x)), the displacement x_q - x_p is wrapped along c, b, a by the
+    reduced diagonal, and for a non-orthogonal cell the shortest of the 27 neighbouring images is taken (`min` as a function of the set)."""
+    from ..tensym import TenSym, Ten
+    from ..pysym import Unsupported as PUnsupported
+    from ..poly import Poly, Rat
+    mod = ctx.py.mod(DIST)
+    funcs = {q: f for q, f in mod.functions.items() if "." not in q}
+    F_, N_ = 2, 3
+    rat = lambda v: Rat(Poly.const(v))      # noqa: E731
+
+    def vec(t, *idx):
+        base = 0
+        st_ = t.strides()
+        for k, i in enumerate(idx):
+            base += i * st_[k]
+        return [t.data[base + c * st_[len(idx)]] for c in range(3)] if len(idx) < t.ndim else None
+
+    def col(t, f, k):       # column k of box_vectors[f]
+        return [t.data[(f * 3 + r_) * 3 + k] for r_ in range(3)]
+
+    def definition(ts, r, a, b, c, orthogonal):
+        rnd = lambda v: ts.fn("round", v)      # noqa: E731
+        sub = lambda u, v, k: [u[i] - v[i] * k for i in range(3)]      # noqa: E731
+        c1 = sub(c, b, rnd(c[1] / b[1]))
+        c2 = sub(c1, a, rnd(c1[0] / a[0]))
+        b1 = sub(b, a, rnd(b[0] / a[0]))
+        r1 = sub(r, c2, rnd(r[2] / c2[2]))
+        r2 = sub(r1, b1, rnd(r1[1] / b1[1]))
+        r3 = sub(r2, a, rnd(r2[0] / a[0]))
+        cands = [[r3[i] + a[i] * ii + b1[i] * jj + c2[i] * kk for i in range(3)] for ii in (-1, 0, 1) for jj in (-1, 0, 1) for kk in (-1, 0, 1)]
+        return r3, cands
+
+    def norm(ts, v):
+        return ts.fn("sqrt", v[0] * v[0] + v[1] * v[1] + v[2] * v[2])
+    xyz, box = Ten.sym("x", (F_, N_, 3)), Ten.sym("B", (F_, 3, 3))
+    p_, q_ = 0, 2
+    pairs = Ten((1, 2), [rat(p_), rat(q_)])
+    times = Ten((1, 2), [rat(1), rat(0)])
+    for q, kind in (("_distance_mic", "dist"), ("_distance_mic_t", "dist_t")):
+        fn = ctx.py.func(DIST, q)
+        for orth in (True, False):
+            desc = "%s, %s cell: |wrapped x_q - x_p|%s" % (q, "orthogonal" if orth else "triclinic", "" if orth else ", shortest of the 27 images")
+            ts = TenSym(funcs={k: v for k, v in funcs.items() if k != q})
+            try:
+                if kind == "dist":
+                    r = ts.run_fn(fn, xyz=xyz, pairs=pairs, box_vectors=box, orthogonal=orth)
+                    frames = [(f, f, f) for f in range(F_)]     # (frame of p... see below)
+                else:
+                    r = ts.run_fn(fn, xyz=xyz, pairs=pairs, times=times, box_vectors=box, orthogonal=orth)
+                    frames = [(1, 0, 1)]        # times row (a, b) = (1, 0): x[a, c] - x[b, d], box of frame a
+            except PUnsupported as e:
+                ctx.undecided("C05-R4", fn, DIST, q, desc, "not evaluable: %s" % e)
+                continue
+            ok = isinstance(r, Ten) and r.shape == (len(frames), 1)
+            why = "" if ok else "the result has shape %s" % (getattr(r, "shape", None),)
+            if ok:
+                for row, (fa, fb, fbox) in enumerate(frames):
+                    if kind == "dist":
+                        disp = [xyz.data[(fa * N_ + q_) * 3 + i] - xyz.data[(fa * N_ + p_) * 3 + i] for i in range(3)]
+                    else:
+                        disp = [xyz.data[(fa * N_ + p_) * 3 + i] - xyz.data[(fb * N_ + q_) * 3 + i] for i in range(3)]
+                    r3, cands = definition(ts, disp, col(box, fbox, 0), col(box, fbox, 1), col(box, fbox, 2), orth)
+                    want = norm(ts, r3) if orth else ts.extreme("min", [norm(ts, r3)] + [norm(ts, c_) for c_ in cands])
+                    if not ts.equal(r.data[row], want):
+                        ok = False
+                        why = why or "row %d is %s; the scheme gives %s" % (row, repr(r.data[row])[:160], repr(want)[:160])
+            ctx.decide(ok, "C05-R4", fn, DIST, q, desc, "", why)
+    # ---- displacement: the wrapped vector; for a triclinic cell the candidate whose squared length beat the best so far
+    fn = ctx.py.func(DIST, "_displacement_mic")
+    q = "_displacement_mic"
+    for orth, pick in ((True, None), (False, None), (False, 0), (False, 13), (False, 26), (False, 5)):
+        desc = "%s, %s cell%s" % (q, "orthogonal" if orth else "triclinic", "" if orth else (": no image shorter -> the wrapped vector" if pick is None else ": image %d shorter than all before it -> that image" % pick))
+        ts = TenSym(funcs={k: v for k, v in funcs.items() if k != q}, models={"np.linalg.inv": lambda ev, call: None})
+        state = {"n": 0, "bad": None}
+        disp = [xyz.data[(0 * N_ + q_) * 3 + i] - xyz.data[(0 * N_ + p_) * 3 + i] for i in range(3)]
+
+        def policy(ev, test, state=state):
+            # the only data-dependent test: is this image shorter than the best so far?  decided by the rule, and checked to compare squared lengths
+            k = state["n"] % 27
+            frame = state["n"] // 27
+            state["n"] += 1
+            if frame == 0 and isinstance(test, ast.Compare) and len(test.ops) == 1:
+                l_, r_ = ev.ex(test.left), ev.ex(test.comparators[0])
+                r3, cands = definition(ev, disp, col(box, 0, 0), col(box, 0, 1), col(box, 0, 2), False)
+                sq = lambda v: v[0] * v[0] + v[1] * v[1] + v[2] * v[2]      # noqa: E731
+                best = sq(r3) if (pick is None or k <= pick) else sq(cands[pick])
+                lt = isinstance(test.ops[0], ast.Lt) and ev.equal(l_, sq(cands[k])) and ev.equal(r_, best)
+                gt = isinstance(test.ops[0], ast.Gt) and ev.equal(r_, sq(cands[k])) and ev.equal(l_, best)
+                if not (lt or gt):
+                    state["bad"] = state["bad"] or "image %d is accepted on `%s`, which is not |image|^2 < |best so far|^2" % (k, src(test))
+            return pick is not None and k == pick
+        policy.wants_node = True
+        ts.assume = policy
+        try:
+            r = ts.run_fn(fn, xyz=xyz, pairs=pairs, box_vectors=box, orthogonal=orth)
+        except PUnsupported as e:
+            ctx.undecided("C05-R4", fn, DIST, q, desc, "not evaluable: %s" % e)
+            continue
+        ok = isinstance(r, Ten) and r.shape == (F_, 1, 3)
+        why = "" if ok else "the result has shape %s" % (getattr(r, "shape", None),)
+        if ok:
+            r3, cands = definition(ts, disp, col(box, 0, 0), col(box, 0, 1), col(box, 0, 2), orth)
+            want = r3 if pick is None else cands[pick]
+            got = r.data[0:3]
+            if not all(ts.equal(g, w) for g, w in zip(got, want)):
+                ok = False
+                why = "frame 0 gives %s; expected %s" % ([repr(g)[:80] for g in got], [repr(w)[:80] for w in want])
+            if not orth and state["n"] != 27 * F_:
+                ok = False
+                why = why or "%d images are examined per pair (27 expected: -1, 0, 1 along each reduced vector)" % (state["n"] // F_)
+            if state["bad"]:
+                ok = False
+                why = why or state["bad"]
+        ctx.decide(ok, "C05-R4", fn, DIST, q, desc, "", why)
+        if orth:
+            ctx.decide(ok, "C05-R2", fn, DIST, q, "reference displacement = wrapped (x_q - x_p): from the first atom of the pair to the second, like the C kernel", "", why)
+    trio = [o for o in ctx.obs if o.rule == "C05-R4" and o.func in ("_distance_mic", "_distance_mic_t", "_displacement_mic")]
+    ctx.decide(bool(trio) and all(o.verdict == "HOLDS" for o in trio), "C05-R3", ctx.py.func(DIST, "_distance_mic_t"), DIST, "_distance_mic/_distance_mic_t/_displacement_mic",
+               "one reduction / wrap / image-search scheme in all three reference functions (each equals the same definition)", "%d comparisons" % len(trio),
+               "the reference functions do not all follow the scheme: see the C05-R4 reports")
+    # ---- non-periodic reference: x_q - x_p
+    fn = ctx.py.func(DIST, "_displacement")
+    ts = TenSym(funcs={k: v for k, v in funcs.items() if k != "_displacement"})
+    try:
+        pr2 = Ten((2, 2), [rat(0), rat(2), rat(1), rat(0)])
+        r = ts.run_fn(fn, xyz=xyz, pairs=pr2)
+        want = Ten((F_, 2, 3), [xyz.data[(f * N_ + b_) * 3 + i] - xyz.data[(f * N_ + a_) * 3 + i] for f in range(F_) for (a_, b_) in ((0, 2), (1, 0)) for i in range(3)])
+        ok = isinstance(r, Ten) and r.shape == want.shape and ts.first_difference(r, want) is None
+        ctx.decide(ok, "C05-R2", fn, DIST, "_displacement", "plain displacement = xyz[b] - xyz[a] for every frame and pair", "",
+                   "the displacement %s" % ("has shape %s" % (getattr(r, "shape", None),) if not (isinstance(r, Ten) and r.shape == want.shape) else ts.first_difference(r, want)))
+    except PUnsupported as e:
+        ctx.undecided("C05-R2", fn, DIST, "_displacement", "plain displacement", "not evaluable: %s" % e)
 
 
 # ---------------------------------------------------------------------------------------------------
